@@ -1,7 +1,7 @@
 SPECIFICATION Spec
 CONSTANT Depth = 3
-CONSTANT Shift = "2147483648"
-CONSTANT Win0 = 0
-CONSTANT Mms = 0
+CONSTANT Shift = "0"
+CONSTANT Win0 = 2
+CONSTANT Mms = 150
 INVARIANT Emit
 CHECK_DEADLOCK FALSE
